@@ -1327,7 +1327,8 @@ fn emit_fn(key: &str, file: &str, mut sig: syn::Signature, mut block: syn::Block
                         k += 1; rw.bump("R4");
                         let g = format_ident!("F{}", k);
                         let bounds = &to.bounds;
-                        extra.push(quote!(#g: #bounds));
+                        // `?Sized`: the generic may still be instantiated with the trait object the real signature names
+                        extra.push(quote!(#g: #bounds + ?Sized));
                         pt.ty = Box::new(parse_quote!(&#g));
                     }
                 }
